@@ -12,6 +12,7 @@ pub struct C16 {
     guarded: bool,
     processed_wrappers: BTreeSet<(usize, String)>,
     processed_rumors: BTreeSet<(usize, String)>,
+    stored_rumors: BTreeSet<(usize, String)>,
     hit_active: bool,
 }
 
@@ -80,6 +81,18 @@ impl Oracle for C16 {
                             viols.push(("reprocessing-created-something", format!("n{node}: processing the invitation with wrapper {} a second time changed the client", &pw.wrapper_id.to_hex()[..8])));
                         }
                     }
+                    // an invitation the client has stored is answered from storage when it comes
+                    // again, under whatever wrapper and whatever has happened to the key package
+                    // it was built for
+                    if let Some(rid) = pw.rumor.id {
+                        let key = (node, rid.to_hex());
+                        if self.stored_rumors.contains(&key) && is_refusal(&rec.class) && !again_same_wrapper {
+                            viols.push(("stored-invitation-not-returned-on-replay", format!("n{node}: the stored invitation {} delivered again under a new wrapper id was answered {}", &rid.to_hex()[..8], rec.outcome.chars().take(90).collect::<String>())));
+                        }
+                        if rec.class == "ok" {
+                            self.stored_rumors.insert(key);
+                        }
+                    }
                     // the same invitation (same rumor) replayed under another wrapper id
                     if let Some(rid) = pw.rumor.id {
                         let again_same_rumor = !self.processed_rumors.insert((node, rid.to_hex()));
@@ -94,6 +107,24 @@ impl Oracle for C16 {
                     }
                 }
             }
+            Op::AcceptWelcome { .. } if rec.class == "ok" && !pw.hostile && {
+                // an invitation is accepted once: accepting the same invitation again (the same
+                // rumor, under whatever wrapper) leaves the client as it is
+                let rid = pw.rumor.id;
+                let n = w.history.len();
+                let earlier = w.history[..n.saturating_sub(1)].iter().any(|r| {
+                    r.step.node == node && r.class == "ok" && matches!(&r.step.op, Op::AcceptWelcome { w: w2 } if w.w_index.get(w2).map(|i| w.welcomes[*i].rumor.id == rid).unwrap_or(false))
+                });
+                if earlier {
+                    w.probe("accepted_invitation_accepted_again");
+                    if w.views[node] != w.prev_view {
+                        let before = w.prev_view.groups.get(&w.gid_hex(pw.g)).and_then(|g| g.mls.as_ref()).map(|m| m.epoch);
+                        let after = w.gview(node, pw.g).and_then(|g| g.mls.as_ref()).map(|m| m.epoch);
+                        viols.push(("accepted-invitation-accepted-again-changed-the-client", format!("n{node} g{}: MLS epoch {:?} -> {:?}", pw.g, before, after)));
+                    }
+                }
+                earlier
+            } => {}
             Op::AcceptWelcome { .. } if rec.class == "ok" && !pw.hostile => {
                 // joiner is in exactly the inviter's post-commit state, with the key-rotation obligation
                 let want = match pw.commit {
@@ -146,8 +177,54 @@ fn mk(cfg: &RunCfg) -> Box<dyn Oracle> {
     Box::new(C16 { guarded: cfg.guards.contains("guarded"), ..Default::default() })
 }
 
+/// Story: a member that has done its post-join key rotation is removed without noticing (the
+/// removal does not reach it) and is invited again; it accepts while its record of the group is
+/// still active. The joined state is new: the rotation obligation is back.
+fn story_hook(gn: &mut Gen, w: &mut World) -> Option<Step> {
+    // key-package hygiene after a join: the private parts of the key packages published so far are
+    // deleted (invitations already stored must keep being answered from storage)
+    if gn.rng().chance(1, 10) {
+        let joined: Vec<usize> = (0..w.nodes.len()).filter(|n| w.history.iter().any(|r| r.step.node == *n && r.class == "ok" && matches!(r.step.op, Op::AcceptWelcome { .. }))).collect();
+        if let Some(x) = gn.rng().pick(&joined).copied() {
+            return Some(gn.mk(w, x, 0, Op::RotateKeyPackages));
+        }
+    }
+    if !w.groups.is_empty() && !w.probes.contains_key("reinvited_while_still_active_story") && gn.rng().chance(1, 4) {
+        let g = 0usize;
+        let n = w.nodes.len();
+        let admins: Vec<usize> = (0..n).filter(|a| w.is_admin(*a, g) && w.is_active_member(*a, g) && !w.has_pending_commit(*a, g)).collect();
+        if let Some(a) = admins.first().copied() {
+            let xs: Vec<usize> = (0..n).filter(|x| *x != a && w.is_active_member(*x, g) && !w.has_pending_commit(*x, g) && w.node_state(*x, g) == w.node_state(a, g)).collect();
+            if let Some(x) = gn.rng().pick(&xs).copied() {
+                let first = gn.mk(w, x, 1, Op::SelfUpdate { g });
+                let su = EvRef(first.id, 0);
+                let mut q = vec![gn.mk(w, x, 0, Op::MergePending { g }), gn.mk(w, a, 0, Op::Deliver { ev: su }), gn.mk(w, x, 0, Op::PublishKeyPackage)];
+                let rm = gn.mk(w, a, 1, Op::RemoveMembers { g, who: vec![x] });
+                let rm_ev = EvRef(rm.id, 0);
+                q.push(rm);
+                q.push(gn.mk(w, a, 0, Op::MergePending { g }));
+                let add = gn.mk(w, a, 1, Op::AddMembers { g, who: vec![x] });
+                let wref = EvRef(add.id, 1);
+                q.push(add);
+                q.push(gn.mk(w, a, 0, Op::MergePending { g }));
+                q.push(gn.mk(w, x, 0, Op::ProcessWelcome { w: wref }));
+                q.push(gn.mk(w, x, 0, Op::AcceptWelcome { w: wref }));
+                let count = q.len();
+                for st in q {
+                    gn.queue.push_back(st);
+                }
+                gn.hold_until.insert(rm_ev, gn.emitted + count + 2);
+                w.probe("reinvited_while_still_active_story");
+                return Some(first);
+            }
+        }
+    }
+    super::byz::hook(gn, w)
+}
+
 fn conf(g: &mut Gen) {
     super::byz::install(g);
+    g.hostile_hook = Some(story_hook);
     g.cfg.weights.invite += 2;
     g.cfg.weights.remove += 1;
     g.reprocess_welcomes = true;
